@@ -112,11 +112,11 @@ def max_part_for(cfg):
     return min_part + len(parts) * wpc
 
 
-def judge_writes(cfg, writes, fin):
+def judge_writes(cfg, writes, fin, want=None):
     """Invariants on the complete writer log of one finished upload. -> [(key, msg)]"""
     _, wpc, spill, _, _, min_part, _ = cfg
     out = []
-    want = expected_stream(cfg)
+    want = expected_stream(cfg) if want is None else want
     ids = [p for p, _ in writes]
     by_id = sorted(writes, key=lambda x: x[0])
     got = b"".join(d for _, d in by_id)
